@@ -14,6 +14,7 @@ import OFV.Proofs.C20
 import OFV.Proofs.C20Files
 import OFV.Proofs.C20Coef
 import OFV.Proofs.C20Mol
+import OFV.Proofs.C20Canon
 import Mathlib.Tactic.NormNum
 
 namespace OFV.C20
@@ -36,6 +37,33 @@ theorem parse_print_roundtrip (cls : Cls) (tol : Rat) (nt : NumTables) (A : List
     (h : RoundTripOK cls tol nt A) (hne : printedEntries cls tol A ≠ []) :
     initFromString cls nt (printOp cls tol A) = some (entryOp (printedEntries cls tol A)) :=
   initFromString_printOp h hne
+
+/-- **canonical_form_discharged.**  The canonical-form hypothesis `simplify cls key = (1, key)` of the round-trip
+theorems holds for every key an operator of the four savable classes can store: stored keys are outputs of `_simplify`
+(C01) and `_simplify` maps its own outputs to themselves with coefficient factor 1 (fermions: identity; bosons / quad:
+the stable sort fixes sorted terms; qubits: the merge loop fixes strictly increasing terms without identity factors). -/
+theorem canonical_form_discharged (cls : Cls) (hs : Savable cls) (t : Term) :
+    simplify cls (simplify cls t).2 = (1, (simplify cls t).2) :=
+  simplify_idem cls hs t
+
+/-- for boson / quad keys the canonical-form hypothesis is exactly "indices non-decreasing" -/
+theorem canonical_ladder_iff (cls : Cls) (hc : cls = .boson ∨ cls = .quad) (t : Term) :
+    simplify cls t = (1, t) ↔ t.Pairwise (fun a b => a.1 ≤ b.1) :=
+  canonical_iff_ladder cls hc t
+
+/-- **parse_print_roundtrip for stored dictionaries**: `RoundTripOK` without the canonical-form hypothesis, for
+dictionaries whose keys are `_simplify` outputs (what the operator classes store) -/
+theorem roundtrip_ok_of_simplified (cls : Cls) (hs : Savable cls) (tol : Rat) (nt : NumTables) (A : List Entry)
+    (hvalid : ∀ e ∈ A, ValidTerm cls e.1) (hkeys : ∀ e ∈ A, ∃ t, e.1 = (simplify cls t).2)
+    (hnodup : (A.map (·.1)).Nodup) (hcoef : ∀ e ∈ A, GQ.isSmall tol e.2.1 = false → CoefOK nt e.2.2 e.2.1) :
+    RoundTripOK cls tol nt A where
+  valid := hvalid
+  canonical := by
+    intro e he
+    obtain ⟨t, ht⟩ := hkeys e he
+    rw [ht]; exact simplify_idem cls hs t
+  nodup := hnodup
+  coef := hcoef
 
 /-- the printed entries are exactly the non-negligible entries of `A` -/
 theorem printed_entries_spec (cls : Cls) (tol : Rat) (A : List Entry) (e : Entry) :
